@@ -34,6 +34,9 @@ struct State {
     pos: usize,
     /// (task chosen, number of pending tasks at the time, chosen after run_internal returned)
     trace: Vec<(Task, usize, bool)>,
+    /// let the coordinator poll once with nothing delivered before every choice
+    idle_polls: bool,
+    idled: bool,
 }
 
 static ST: Mutex<Option<State>> = Mutex::new(None);
@@ -45,8 +48,15 @@ fn lock() -> std::sync::MutexGuard<'static, Option<State>> {
 
 /// Install a controller with the given schedule (choices into the sorted pending list)
 pub fn install(schedule: Vec<usize>) {
+    install_with_idle_polls(schedule, false)
+}
+
+/// Like [`install`]; with `idle_polls` the coordinator additionally gets one poll that finds
+/// its queue empty (while tasks are still in flight) before every choice
+pub fn install_with_idle_polls(schedule: Vec<usize>, idle_polls: bool) {
     *lock() = Some(State {
         schedule,
+        idle_polls,
         ..Default::default()
     });
 }
@@ -134,6 +144,14 @@ impl Drop for TaskGuard {
 /// Called by the coordinator before each `try_recv`
 pub(crate) fn main_yield() {
     let mut g = lock();
+    if let Some(s) = g.as_mut() {
+        if s.idle_polls && !s.idled && !s.pending.is_empty() {
+            // nothing is delivered this time: the coordinator sees an empty queue
+            s.idled = true;
+            return;
+        }
+        s.idled = false;
+    }
     let id = match g.as_mut() {
         Some(s) => match pick(s, false) {
             Some(id) => id,
